@@ -204,6 +204,7 @@ struct BodySpec {
     before_stmt: Vec<(String, usize, String)>,     // normalized prefix, ordinal, text
     after_stmt: Vec<(String, usize, String)>,
     closures: BTreeMap<usize, String>,
+    optional_closures: Vec<usize>,
     replace: Vec<(String, String, bool)>, // original (normalized), replacement, optional
     keep_unsafe: bool,
     tmpl_line: usize,
@@ -1077,7 +1078,12 @@ fn main() {
                         spec.rules.panic.insert(0, (k.trim_matches('"').to_string(), v));
                     } else if let Some(r) = dd.strip_prefix("CLOSURE ") {
                         let (k, v) = split_arrow(r);
-                        spec.closures.insert(k.parse().unwrap_or_else(|_| die("CLOSURE needs ordinal")), v);
+                        let mut it = k.split_whitespace();
+                        let n: usize = it.next().unwrap_or("").parse().unwrap_or_else(|_| die("CLOSURE needs ordinal"));
+                        if it.next() == Some("optional") {
+                            spec.optional_closures.push(n);
+                        }
+                        spec.closures.insert(n, v);
                     } else {
                         cur = Some((dd.trim().to_string(), String::new()));
                     }
@@ -1188,7 +1194,7 @@ fn main() {
                 }
             }
             for (n, _) in &spec.closures {
-                if !rw.used_closures.contains(n) {
+                if !rw.used_closures.contains(n) && !spec.optional_closures.contains(n) {
                     die(&format!("anchor lost: closure #{} of {}", n, spec.func));
                 }
             }
